@@ -16,7 +16,7 @@ CLAIM = dict(
          'seven value families (positive, mixed sign, negative diagonal, zero diagonal with nonzero sub-diagonal, tiny sub-diagonal, singular, general reals) with arbitrary padding. '
          'Rat: det must equal the fraction-free determinant of the dense twin and A x = b must hold exactly, both recomputed by TLC. Floats: backward error units <= 8 n^3 2^(n-1) (x8 complex). '
          'Floats, every (n, m1 >= 2, m2): pivot columns whose candidates inside the search window are graded 1, 2^-60, 2^-120, ... in chosen orders (diagonal zero or smallest, largest first / last / random) at a chosen elimination step - '
-         'only the pivot of largest magnitude keeps the backward error inside the guard. Complex on the axes: Gaussian-integer systems A = P(2L)U with purely imaginary pivots (squared moduli powers of two, so every complex float operation of the elimination is exact) are judged EXACTLY - TLC recomputes the fraction-free determinant over Gaussian integers and checks A x = b over Gaussian rationals by cross-multiplication; a float family with every entry exactly on the real or imaginary axis; scalar factors and divisors i, -i, 2i, -1 in histories and sequences; graded pivot candidates exactly on the negative imaginary axis. Extreme magnitudes (floats, every n): regular systems uniformly scaled by 2^+-60, 2^+-200, 2^+-400 with the solution O(1) or as extreme as the matrix, and row- / column-graded by such factors - the same guard must hold (the measure is evaluated on exactly descaled data), a panic or refusal is a violation; det is judged while 2^(n e) stays representable. Sequences on ONE object: det, solve, product and all in-band reads before and after EVERY mutating operation '
+         'only the pivot of largest magnitude keeps the backward error inside the guard. Complex on the axes: Gaussian-integer systems A = P(2L)U with purely imaginary pivots (squared moduli powers of two, so every complex float operation of the elimination is exact) are judged EXACTLY - TLC recomputes the fraction-free determinant over Gaussian integers and checks A x = b over Gaussian rationals by cross-multiplication; a float family with every entry exactly on the real or imaginary axis; scalar factors and divisors i, -i, 2i, -1 in histories and sequences; graded pivot candidates exactly on the negative imaginary axis. Other geometries: one object resized to a different (n, m1, m2) - systematically pairs with the same number of storage slots but another storage shape, pairs that only move the split, and Banded::empty() followed by resize - then fill and assignment of every in-band entry through the index operator, then every observer against the dense twin (resize itself is only required to deliver the new geometry with well-formed storage). Non-finite padding (floats): NaN, +-inf, +-f64::MAX (overflowing under *= 4) and -0.0 in the slots outside the matrix must not reach product, det or solve. Extreme magnitudes (floats, every n): regular systems uniformly scaled by 2^+-60, 2^+-200, 2^+-400 with the solution O(1) or as extreme as the matrix, and row- / column-graded by such factors - the same guard must hold (the measure is evaluated on exactly descaled data), a panic or refusal is a violation; det is judged while 2^(n e) stays representable. Sequences on ONE object: det, solve, product and all in-band reads before and after EVERY mutating operation '
          '(index writes, fill, fill_band, resize, += / -= &B and B, *= s, /= s, += c, -= c); the trace specification keeps the model\'s current value and demands that every event starts from it.',
     note='Exact: everything over Rat and all integer-valued histories in every element type (decided by TLC). Measured: f64/Complex det and solve - the harness '
          'computes error units against complex double-double references (backward error of solve in units of eps(|A||x|+|b|); determinant error in units of '
@@ -39,8 +39,15 @@ def check(ctx):
                label='deviation switch PivotBy = "signed" (defect D2): DetOK must fail (diag(-1,1) stored with one sub-diagonal)')
     ctx.exhaustive_parts.append('every band matrix n <= 3 over {-1,0,1} (thorough: n = 4 with m1+m2 <= 2) through the transcribed compact LU')
     # spec -> impl
-    gen = ctx.tlc_cases('MC_Banded', 'Gen_Banded_quick.cfg' if q else 'Gen_Banded.cfg',
-                        transform=with_types(('rat', 'f64', 'rat', 'cx'), 'banded'), name='gen_banded')
+    wt = with_types(('rat', 'f64', 'rat', 'cx'), 'banded')
+
+    def tr(c, k):
+        out = wt(c, k)
+        if q and k % 3 != 0:          # quick: det / solve on every enumerated matrix, product / reads on every third
+            for d in out:
+                d['aux'] = False
+        return out
+    gen = ctx.tlc_cases('MC_Banded', 'Gen_Banded_quick.cfg' if q else 'Gen_Banded.cfg', transform=tr, name='gen_banded')
     ev = ctx.exec('banded', gen)
     ctx.validate('Trace_Banded', ev, gen, 'banded', nontrivial=NT)
     # impl -> spec: all 385 (n, m1, m2)
